@@ -325,22 +325,57 @@ Definition dtag_eqb (a b : dtag) : bool :=
   | DList, DList | DUnion, DUnion | DEnum, DEnum | DTypeVar, DTypeVar | DLiteral, DLiteral => true
   | _, _ => false
   end.
-(* which tests an annotation passes *)
-Definition tags_of (t : ty) : list dtag :=
+(* what Python sees of an annotation: the builtin classes in its __mro__ (typing aliases forward to their origin), its
+   typing origin, whether it is an Enum class / a dataclass class / a key of the _decoding_fns registry *)
+Definition py_mro (t : ty) : list string :=
   match t with
-  | TBool | TInt | TFloat | TStr | TPath => [DReg]
-  | TEnum _ _ => [DEnum]
-  | TLit _ => [DLiteral]
-  | TOpt _ | TUnion _ => [DUnion]
-  | TList _ => [DList]
-  | TTup _ | TTupVar _ => [DTuple]
-  | TSet _ => [DSet]
-  | TDict _ _ => [DDict]
-  | TDc KSer _ _ => [DReg; DDataclass]       (* __init_subclass__ registers cls.from_dict *)
-  | TDc KPlain _ _ => [DDataclass]
+  | TList _ => ["list"] | TTup _ | TTupVar _ => ["tuple"] | TSet _ => ["set"] | TDict _ _ => ["dict"]
+  | TBool => ["bool"; "int"] | TInt => ["int"] | TFloat => ["float"] | TStr => ["str"]
+  | TEnum _ _ => ["Enum"]
+  | _ => []
   end.
-Definition dispatch (order : list dtag) (t : ty) : option dtag :=
-  find (fun g => existsb (dtag_eqb g) (tags_of t)) order.
+Definition py_origin (t : ty) : string :=
+  match t with TOpt _ | TUnion _ => "Union" | TLit _ => "Literal" | _ => "" end.
+Definition py_registered (t : ty) : bool :=
+  match t with TBool | TInt | TFloat | TStr | TPath | TDc KSer _ _ => true | _ => false end.
+Definition py_is_enum_class (t : ty) : bool := match t with TEnum _ _ => true | _ => false end.
+Definition py_is_dataclass (t : ty) : bool := match t with TDc _ _ _ => true | _ => false end.
+
+(* the predicates of utils.py that get_decoding_fn calls, by their (regenerated) bodies *)
+Inductive apred :=
+| PInRegistry                         (* t in _decoding_fns *)
+| PIsDataclassClass                   (* inspect.isclass(t) and dataclasses.is_dataclass(t) *)
+| PIsAny                              (* t is Any *)
+| PMroHasAny (names : list string)    (* X in _mro(t) or ... *)
+| POriginIs (name : string)           (* getattr(t, "__origin__", "") == Union *)
+| POriginIn (names : list string)     (* get_origin(t) in (Literal, LiteralAlt) *)
+| PEnumSubclass                       (* issubclass(t, enum.Enum) for a class, Enum in _mro(t) otherwise *)
+| PIsTypeVar.
+Definition pred_holds (q : apred) (t : ty) : bool :=
+  match q with
+  | PInRegistry => py_registered t
+  | PIsDataclassClass => py_is_dataclass t
+  | PIsAny => false
+  | PMroHasAny names => existsb (fun n => str_in n (py_mro t)) names
+  | POriginIs name => String.eqb (py_origin t) name
+  | POriginIn names => str_in (py_origin t) names
+  | PEnumSubclass => py_is_enum_class t
+  | PIsTypeVar => false
+  end.
+(* which tests an annotation passes *)
+Definition tags_of (preds : list (dtag * apred)) (t : ty) : list dtag :=
+  map fst (filter (fun gq => pred_holds (snd gq) t) preds).
+Definition dispatch (order : list dtag) (preds : list (dtag * apred)) (t : ty) : option dtag :=
+  find (fun g => existsb (dtag_eqb g) (tags_of preds t)) order.
+
+(* from_dict: where the DC_TYPE_KEY entry is popped from; what happens to keys that are no field *)
+Inductive pop_site := PopCopy | PopArgument.
+Inductive extra_policy := ExtraDropped.
+
+(* field(): which of the metadata keys read by to_dict / decode_field are written by helpers.fields.field *)
+Definition eff_incl (wired : list string) (m : fmeta) : bool := if str_in "to_dict" wired then m.(m_incl) else true.
+Definition eff_enc (wired : list string) (m : fmeta) : option Z := if str_in "encoding_fn" wired then m.(m_enc) else None.
+Definition eff_dec (wired : list string) (m : fmeta) : option Z := if str_in "decoding_fn" wired then m.(m_dec) else None.
 
 (* decode_union / try_functions *)
 Inductive ustrat := FirstSuccess.
@@ -365,6 +400,12 @@ Section Model.
   Variable type_key : string.                       (* Gen: DC_TYPE_KEY *)
   Variable s2b : string -> option bool.             (* Gen: utils.str2bool, used by _decode_bool for str *)
   Variable int_float_cmp : bool.                    (* Gen: _decode_int evaluates float(v) when v already is an int *)
+  Variable preds : list (dtag * apred).             (* Gen: utils.is_list / is_tuple / ... by their bodies *)
+  Variable fd_none : bool.                          (* Gen: from_dict(cls, None) returns None *)
+  Variable ctor_error : string.                     (* Gen: the class raised when the constructor call raises TypeError *)
+  Variable extras : extra_policy.                   (* Gen: keys that are no field (drop_extra_fields default) *)
+  Variable hook_first : bool.                       (* Gen: decode_field consults metadata['decoding_fn'] before the annotation *)
+  Variable wired : list string.                     (* Gen: metadata keys written by field() and read by to_dict / decode_field *)
   Variable sigma : list prim -> list prim.          (* oracle: iteration order of a set (a permutation) *)
   Variable encf : Z -> value -> prim.               (* the user's encoding_fn number k *)
   Variable decf : Z -> prim -> res value.           (* the user's decoding_fn number k *)
@@ -404,8 +445,8 @@ Section Model.
         if pos || is_ser k then
           (* to_dict: honours the field metadata; nested dataclass values recurse through to_dict *)
           PDict false (flat_map (fun f => match f with (n, m, x) =>
-                         if m.(m_incl) then
-                           [(PStr n, match m.(m_enc) with Some h => encf h x | None => enc true x end)]
+                         if eff_incl wired m then
+                           [(PStr n, match eff_enc wired m with Some h => encf h x | None => enc true x end)]
                          else [] end) fs)
         else
           (* the generic dataclass branch of encode(): every field, metadata ignored *)
@@ -505,7 +546,7 @@ Section Model.
 
   (* ---------- get_decoding_fn, by recursion on the annotation ---------- *)
   Fixpoint decode (t : ty) (p : prim) : res value :=
-    match dispatch order t with
+    match dispatch order preds t with
     | None => Err OutOfFuel                 (* try_constructor fall-back: not modelled *)
     | Some g =>
       match g, t with
@@ -597,8 +638,9 @@ Section Model.
       | DReg, TDc k c fs | DDataclass, TDc k c fs =>
           (* from_dict *)
           match p with
-          | PNone => Ok VNone
+          | PNone => if fd_none then Ok VNone else Err (Raise "AttributeError")
           | PDict _ kvs =>
+              match extras with ExtraDropped =>
               if match dict_get prim_eqb (PStr type_key) kvs with Some _ => true | None => false end
               then Err OutOfFuel else
               match (fix go (fs : list (string * fmeta * option value * ty))
@@ -610,7 +652,7 @@ Section Model.
                              match dict_get prim_eqb (PStr n) kvs with
                              | None => match dflt with Some d => Ok (false, d) | None => Ok (true, VNone) end
                              | Some rawv =>
-                                 match (match m.(m_dec) with Some h => decf h rawv | None => decode t1 rawv end) with
+                                 match (match (if hook_first then eff_dec wired m else None) with Some h => decf h rawv | None => decode t1 rawv end) with
                                  | Ok v => Ok (false, v)
                                  | Err e => Err e
                                  end
@@ -625,9 +667,9 @@ Section Model.
                            end
                        end) fs with
               | Err e => Err e
-              | Ok (true, _) => Err (Raise "RuntimeError")     (* the constructor call: missing argument *)
+              | Ok (true, _) => Err (Raise ctor_error)         (* the constructor call: missing argument *)
               | Ok (false, out) => Ok (VDc k c out)
-              end
+              end end
           | PList _ | PTuple _ | PBad => Err OutOfFuel
           | _ => Err (Raise "AttributeError")                 (* d.copy() *)
           end
@@ -695,17 +737,17 @@ Definition transport_of_codec (c : codec) : option transport :=
 (* save_dc_types=True: to_dict puts DC_TYPE_KEY -> "module.Class" first in the dict of the instance and of every
    dataclass it reaches by its own recursion (a dataclass-valued field without encoding_fn); container elements go
    through encode() and get none.  from_dict pops the key (from its COPY of the dict) and restarts on the located class. *)
-Fixpoint add_types (key modname : string) (v : value) (p : prim) : prim :=
+Fixpoint add_types (key sep modname : string) (v : value) (p : prim) : prim :=
   match v, p with
   | VDc _ c fs, PDict od kvs =>
-      PDict od ((PStr key, PStr (modname ++ "." ++ c)) ::
+      PDict od ((PStr key, PStr (modname ++ sep ++ c)) ::
                 map (fun kv =>
                        match fst kv with
                        | PStr n =>
                            match find (fun f => match f with (n', _, _) => String.eqb n' n end) fs with
                            | Some (_, m, x) =>
                                match m.(m_enc), x with
-                               | None, VDc _ _ _ => (fst kv, add_types key modname x (snd kv))
+                               | None, VDc _ _ _ => (fst kv, add_types key sep modname x (snd kv))
                                | _, _ => kv
                                end
                            | None => kv
@@ -725,3 +767,7 @@ Fixpoint strip_key (key : string) (p : prim) : prim :=
                        (map (fun kv => (fst kv, strip_key key (snd kv))) kvs))
   | _ => p
   end.
+
+(* what the caller's dict looks like after from_dict returned *)
+Definition from_dict_arg_after (site : pop_site) (key : string) (p : prim) : prim :=
+  match site with PopCopy => p | PopArgument => strip_key key p end.
